@@ -451,7 +451,20 @@ type C21Gen struct {
 	Count func(string)
 	// Quiet > 0: from that height on most blocks carry no optional transaction
 	Quiet uint32
+	// Consensus-mode cycle script (pow-cycle histories): from CycleAt on the
+	// generator forces RevertToPOW(NoBlock) as soon as the chain is in DPOS mode,
+	// then RevertToDPOS after 3 POW blocks, draws only vote / stake / deposit
+	// transactions (the arbiter set must survive) and never reverts to POW
+	// spontaneously again.
+	// Nurture: never cancel / accuse producers, favour registration and votes
+	// (used by the pow-cycle histories so that elections keep succeeding)
+	Nurture       bool
+	CycleAt       uint32
+	CyclePOWSent  bool
+	CycleDPOSSent bool
 }
+
+func (g *C21Gen) cycling(h uint32) bool { return g.CycleAt != 0 && h >= g.CycleAt }
 
 type c21Prod struct {
 	idx int
@@ -549,12 +562,19 @@ func (g *C21Gen) NextBlock(v *state.Arbiters, m0 *C21Model, h uint32) (*C21Block
 			}
 		case len(normalArbiters) == 0 && h < s.NewCR:
 			return nil, nil
-		case h >= s.NewCR && (len(normalArbiters) == 0 || r.Intn(40) == 0):
+		case g.cycling(h) && !g.CyclePOWSent && len(normalArbiters) > 0:
+			g.CyclePOWSent = true
+			noBlock()
+		case h >= s.NewCR && (len(normalArbiters) == 0 || (r.Intn(40) == 0 && !g.cycling(h))):
 			noBlock()
 		}
 	}
 	if pow && h >= s.NewCR && v.DPOSWorkHeight <= h && v.DPOSWorkHeight == 0 && len(normalArbiters) > 0 &&
-		h > v.RevertToPOWBlockHeight+1 && r.Intn(4) == 0 {
+		h > v.RevertToPOWBlockHeight+1 && ((!g.cycling(h) && r.Intn(4) == 0) || (g.cycling(h) && h >= v.RevertToPOWBlockHeight+3)) {
+		if g.cycling(h) {
+			g.CyclePOWSent = true // the chain was already in POW mode when the script started
+			g.CycleDPOSSent = true
+		}
 		b.Pre = append(b.Pre, C21Pre{Kind: "need-revert-to-dpos"})
 		add(w.TxRevertToDPOS(v.RevertToPOWBlockHeight), "revert_to_dpos")
 	}
@@ -1362,6 +1382,19 @@ func (g *C21Gen) NextBlock(v *state.Arbiters, m0 *C21Model, h uint32) (*C21Block
 		table = []wk{{"register", 10}, {"update", 10}, {"cancel", 3}, {"activate", 8}, {"vote_v1", 8}, {"cancel_vote", 4},
 			{"topup", 5}, {"return_deposit", 7}, {"illegal", 5}, {"inactive_arbitrators", 1}, {"cr_claim", 1},
 			{"stake", 12}, {"voting", 22}, {"renew", 6}, {"return_votes", 6}, {"votes_real_withdraw", 4}, {"claim_reward", 6}, {"claim_reward_real_withdraw", 4}}
+	}
+	if g.Nurture && h != s.VoteStatistics {
+		table = []wk{{"register", 20}, {"vote_v1", 40}, {"update", 4}, {"topup", 4}, {"activate", 6}, {"cr_claim", 1}}
+		if h > s.DPoSV2Start {
+			table = append(table, wk{"stake", 8}, wk{"voting", 12}, wk{"renew", 2})
+		}
+	}
+	if g.cycling(h) || (g.CycleAt != 0 && h+8 >= g.CycleAt) {
+		// keep the elected producers alive around the consensus-mode cycle
+		table = []wk{{"vote_v1", 20}, {"topup", 4}}
+		if h > s.DPoSV2Start {
+			table = append(table, wk{"stake", 6}, wk{"voting", 8})
+		}
 	}
 	// early on, bias towards registration so that elections have candidates
 	if len(unreg) > c21Owners-7 {
